@@ -11,6 +11,7 @@ import (
 	"path/filepath"
 	"regexp"
 	"runtime"
+	"runtime/debug"
 	"sort"
 	"strconv"
 	"strings"
@@ -53,6 +54,15 @@ func goSetup() error {
 		if p := filepath.Join(runtime.GOROOT(), "bin", "go"); runtime.GOROOT() != "" {
 			if _, err := os.Stat(p); err == nil {
 				goBin = p
+			}
+		}
+		// caches left behind by killed processes
+		if old, _ := filepath.Glob(filepath.Join(os.TempDir(), "c14-gocache-*")); len(old) > 0 {
+			for _, d := range old {
+				pid := strings.TrimPrefix(filepath.Base(d), "c14-gocache-")
+				if _, err := os.Stat("/proc/" + pid); err != nil {
+					_ = os.RemoveAll(d)
+				}
 			}
 		}
 		goCache = filepath.Join(os.TempDir(), fmt.Sprintf("c14-gocache-%d", os.Getpid()))
@@ -496,6 +506,24 @@ func classify(err error) string {
 	return s
 }
 
+// compileProg runs the neo-go compiler; a Go panic inside the compiler is reported separately from a rejection.
+func compileProg(name, src string) (nf *nef.File, di *compiler.DebugInfo, err error, crash string) {
+	defer func() {
+		if r := recover(); r != nil {
+			st := strings.Split(string(debug.Stack()), "\n")
+			var at []string
+			for _, l := range st {
+				if strings.Contains(l, "/pkg/compiler/") && len(at) < 3 {
+					at = append(at, strings.TrimSpace(l))
+				}
+			}
+			crash = fmt.Sprintf("%v (%s)", r, strings.Join(at, " <- "))
+		}
+	}()
+	nf, di, err = compiler.CompileWithOptions(name, strings.NewReader(src), nil)
+	return
+}
+
 type vmResult struct {
 	fault string // non-empty: FAULT with this message
 	typ   stackitem.Type
@@ -503,11 +531,13 @@ type vmResult struct {
 	depth int
 }
 
-const gasCap = 20_000_000
+// gasCap bounds the number of VM instructions per call (every instruction is priced one unit). Generated calls
+// execute at most costCap statements, i.e. a few tens of thousands of instructions.
+const gasCap = 2_000_000
 
 func runVM(script []byte, offset, initOffset int, args []Arg, resType string) vmResult {
 	v := vm.New()
-	v.SetPriceGetter(func(opcode.Opcode, []byte) int64 { return 1 })
+	v.SetPriceGetter(func(opcode.Opcode, []byte) int64 { return vm.ExecFeeFactorMultiplier })
 	v.SetGasLimit(gasCap)
 	v.LoadScriptWithFlags(script, callflag.All)
 	for i := len(args) - 1; i >= 0; i-- {
@@ -636,7 +666,13 @@ func checkABI(pr *Prog, nf *nef.File, di *compiler.DebugInfo) (exclUnused bool, 
 	for i := range pr.Funcs {
 		known[pr.Funcs[i].Name] = &pr.Funcs[i]
 	}
-	for id, dm := range byID {
+	ids := make([]string, 0, len(byID))
+	for id := range byID {
+		ids = append(ids, id)
+	}
+	sort.Strings(ids)
+	for _, id := range ids {
+		dm := byID[id]
 		if id == manifest.MethodInit || strings.HasPrefix(id, "lambda@") {
 			continue
 		}
@@ -814,6 +850,7 @@ func checkCase(c Case, o *vt.Obs) error {
 
 	type progRes struct {
 		rejected string
+		crash    string
 		abiErr   error
 		exclUnused bool
 		res      []vmResult
@@ -821,7 +858,11 @@ func checkCase(c Case, o *vt.Obs) error {
 	prs := make([]progRes, len(c.Progs))
 	for i := range c.Progs {
 		pr := &c.Progs[i]
-		nf, di, err := compiler.CompileWithOptions(filepath.Join(dir, pkgName(i), "prog.go"), strings.NewReader(srcs[i]), nil)
+		nf, di, err, crash := compileProg(filepath.Join(dir, pkgName(i), "prog.go"), srcs[i])
+		if crash != "" {
+			prs[i].crash = crash
+			continue
+		}
 		if err != nil {
 			prs[i].rejected = classify(err)
 			continue
@@ -869,6 +910,9 @@ func checkCase(c Case, o *vt.Obs) error {
 			}
 			o.Label(f)
 		}
+		if prs[i].crash != "" {
+			return where("the compiler itself panics on this program (valid for the Go toolchain): %s", prs[i].crash)
+		}
 		if prs[i].rejected != "" {
 			o.Label("rejected:" + prs[i].rejected)
 			o.Label("prog-rejected")
@@ -899,7 +943,7 @@ func checkCase(c Case, o *vt.Obs) error {
 			units++
 			desc := fmt.Sprintf("%s(%s)", f.Name, fmtArgs(call.Args))
 			if strings.Contains(got.fault, "gas limit") || strings.Contains(got.fault, "GAS limit") {
-				return where("HARNESS ERROR: %s exceeded the instruction cap of the harness in the VM (Go: %s)", desc, want)
+				return where("%s does not finish within %d VM instructions (the program is loop-bounded by construction; Go: %s)", desc, gasCap, want)
 			}
 			switch {
 			case want == "PANIC" && got.fault != "":
